@@ -745,6 +745,8 @@ def r6(ctx, R, funcs):
     var = st.targets[0].id if isinstance(st, ast.Assign) and isinstance(st.targets[0], ast.Name) else None
     uses = [n for n in ctx.m.walk_own(gcl.node) if isinstance(n, (ast.Subscript, ast.Attribute, ast.Call)) and var and any(isinstance(x, ast.Name) and x.id == var and isinstance(x.ctx, ast.Load) for x in ast.iter_child_nodes(n) if not isinstance(n, ast.Call) or x in n.args)]
     uses = [n for n in uses if st in _reaching(ctx, gcl, n, var)]
+    # handing the (possibly missing) line back inside a record is no more a use than returning it in a tuple
+    uses = [n for n in uses if not (isinstance(n, ast.Call) and isinstance(ctx.m.parent.get(n), ast.Return) and isinstance(n.func, ast.Name) and ctx.m.resolve_class_name(gcl.rel, n.func.id))]
     badu = [n for n in uses if not any(b[0] == "nonnull" and b[1] == var for b in (Fg.at(n) or set()))]
     if var and not badu:
         R.ok("C09.R6", gcl.short, f"`{var}` None-tested before use", loc(gcl, st), f"{len(uses)} uses")
